@@ -12,6 +12,7 @@ from typing import (
     Union,
 )
 
+import numpy as np
 import onnx_ir as ir
 
 import onnxscript
@@ -445,6 +446,10 @@ class Converter:
                 suggested_name = "const"
         ovar = self._generate_unique_name(suggested_name)
 
+        if isinstance(pyvalue, np.ndarray):
+            # Script-time constants are fixed when the script is translated: the tensor must not
+            # share memory with an array that the caller may modify in place later.
+            pyvalue = pyvalue.copy()
         try:
             tensor = ir.tensor(pyvalue, name=ovar)
         except Exception as exc:  # pylint: disable=broad-exception-caught
@@ -583,6 +588,9 @@ class Converter:
             return None
         attr_type = attr_meta.type if attr_meta else None
         if attr_type == ir.AttributeType.TENSOR:
+            if isinstance(val, np.ndarray):
+                # See _emit_const: do not share memory with the caller's array.
+                val = val.copy()
             val = ir.tensor(val)
         attr = ir.convenience.convert_attribute(attr_name, val, attr_type)
         return attr
